@@ -1,7 +1,1842 @@
-//! C10: not implemented yet.
+//! C10: Indexes never change query results.
+//!
+//! Twin databases are fed the same generated history: twin A declares PRIMARY KEY / UNIQUE /
+//! secondary (single-column and composite) indexes, twin B declares the same table without any of
+//! them (the harness tracks keys, so the history never violates the constraints B does not have).
+//! After every few statements a probe set runs on both twins; results must be equal as bags (and
+//! equal to the reference model where the model covers the query). On twin A, CREATE INDEX /
+//! DROP INDEX mid-history must not change any probe result (before/after comparison).
+use crate::report::{catch, Ctx};
+use crate::rng::{fnv, Rng};
+use crate::sqlm::db::Scratch;
+use crate::sqlm::expr::{bin, col, lit, AggFn, BinOp, E};
+use crate::sqlm::query::{run_model, FromItem, Item, MTable, OrderKey, Query, Select};
+use crate::sqlm::val::{row_key, rows_json, Row, V};
 use crate::Args;
+use serde_json::{json, Value as J};
+use std::collections::{BTreeMap, HashMap, HashSet};
+use std::path::Path;
+use std::time::Instant;
+use turdb::{Database, ExecuteResult, OwnedValue};
 
-pub fn run(_a: &Args) -> i32 {
-    println!("INCONCLUSIVE property=C10 reason=check not implemented yet");
-    2
+// ---------------------------------------------------------------------------------------------
+// key types and value domains
+// ---------------------------------------------------------------------------------------------
+
+#[derive(Clone, Copy, Debug, PartialEq, Eq, Hash)]
+enum KT {
+    Int,
+    BigInt,
+    Text,
+    Double,
+    Bool,
+    Date,
+    Ts,
+}
+
+impl KT {
+    fn sql(self) -> &'static str {
+        match self {
+            KT::Int => "INT",
+            KT::BigInt => "BIGINT",
+            KT::Text => "TEXT",
+            KT::Double => "DOUBLE",
+            KT::Bool => "BOOLEAN",
+            KT::Date => "DATE",
+            KT::Ts => "TIMESTAMP",
+        }
+    }
+    fn tag(self) -> &'static str {
+        match self {
+            KT::Int => "int",
+            KT::BigInt => "bigint",
+            KT::Text => "text",
+            KT::Double => "double",
+            KT::Bool => "boolean",
+            KT::Date => "date",
+            KT::Ts => "timestamp",
+        }
+    }
+    /// the model understands comparisons of this type against the literals we render
+    /// (DATE/TIMESTAMP columns compared with string literals are outside the documented dialect:
+    /// such probes are judged twin-against-twin only)
+    fn model_compares(self) -> bool {
+        !matches!(self, KT::Date | KT::Ts)
+    }
+    fn is_int(self) -> bool {
+        matches!(self, KT::Int | KT::BigInt)
+    }
+}
+
+fn civil(days: i64) -> (i64, i64, i64) {
+    let z = days + 719468;
+    let era = if z >= 0 { z } else { z - 146096 } / 146097;
+    let doe = z - era * 146097;
+    let yoe = (doe - doe / 1460 + doe / 36524 - doe / 146096) / 365;
+    let y = yoe + era * 400;
+    let doy = doe - (365 * yoe + yoe / 4 - yoe / 100);
+    let mp = (5 * doy + 2) / 153;
+    let d = doy - (153 * mp + 2) / 5 + 1;
+    let m = if mp < 10 { mp + 3 } else { mp - 9 };
+    (if m <= 2 { y + 1 } else { y }, m, d)
+}
+fn iso_date(days: i64) -> String {
+    let (y, m, d) = civil(days);
+    format!("{:04}-{:02}-{:02}", y, m, d)
+}
+fn iso_ts(micros: i64) -> String {
+    let secs = micros.div_euclid(1_000_000);
+    let days = secs.div_euclid(86400);
+    let r = secs.rem_euclid(86400);
+    format!("{} {:02}:{:02}:{:02}", iso_date(days), r / 3600, (r / 60) % 60, r % 60)
+}
+
+/// n-th value of the type's domain (injective in n for every type but BOOLEAN)
+fn val(kt: KT, n: i64) -> V {
+    match kt {
+        KT::Int => V::Int(n - 300),
+        KT::BigInt => {
+            if n % 2 == 0 {
+                V::Int(n / 2 - 100)
+            } else {
+                V::Int((1i64 << 40) + n)
+            }
+        }
+        // many keys share the 4-byte prefix "keyA" (the leaf prefix-hint width)
+        KT::Text => V::Text(format!("{}{:04}", ["keyA", "keyB", "keyAA", "key"][(n.rem_euclid(4)) as usize], n.div_euclid(4))),
+        KT::Double => V::Float((n - 200) as f64 / 4.0),
+        KT::Bool => V::Bool(n.rem_euclid(2) == 1),
+        KT::Date => V::Text(iso_date(19000 + n - 100)),
+        KT::Ts => V::Text(iso_ts((1_700_000_000 + (n - 100) * 12_345) * 1_000_000)),
+    }
+}
+
+fn conv_value(o: &OwnedValue) -> V {
+    match o {
+        OwnedValue::Date(d) => V::Text(iso_date(*d as i64)),
+        OwnedValue::Timestamp(us) => V::Text(iso_ts(*us)),
+        other => V::from_owned(other),
+    }
+}
+fn conv_rows(rows: &[turdb::Row]) -> Vec<Row> {
+    rows.iter().map(|r| r.values.iter().map(conv_value).collect()).collect()
+}
+
+// ---------------------------------------------------------------------------------------------
+// case (schema), operations
+// ---------------------------------------------------------------------------------------------
+
+const COLS: [&str; 7] = ["id", "u", "s", "a", "b", "d", "pay"];
+const C_ID: usize = 0;
+const C_U: usize = 1;
+const C_S: usize = 2;
+const C_A: usize = 3;
+const C_B: usize = 4;
+const C_D: usize = 5;
+
+#[derive(Clone, Debug)]
+struct Case {
+    pk: KT,
+    ut: KT,
+    st: KT,
+    dt: KT,
+    // which indexes twin A declares (the shrinker switches unneeded ones off)
+    with_pk: bool,
+    with_unique: bool,
+    with_ix_s: bool,
+    with_ix_ab: bool,
+}
+
+impl Case {
+    fn ty(&self, ci: usize) -> KT {
+        match ci {
+            C_ID => self.pk,
+            C_U => self.ut,
+            C_S => self.st,
+            C_D => self.dt,
+            C_A | C_B => KT::Int,
+            _ => KT::Text,
+        }
+    }
+    fn ddl(&self, indexed: bool) -> Vec<String> {
+        let mut v = vec![format!(
+            "CREATE TABLE t (id {}{}, u {}{}, s {}, a INT, b INT, d {}, pay TEXT)",
+            self.pk.sql(),
+            if indexed && self.with_pk { " PRIMARY KEY" } else { "" },
+            self.ut.sql(),
+            if indexed && self.with_unique { " UNIQUE" } else { "" },
+            self.st.sql(),
+            self.dt.sql()
+        )];
+        if indexed && self.with_ix_s {
+            v.push("CREATE INDEX ix_s ON t (s)".into());
+        }
+        if indexed && self.with_ix_ab {
+            v.push("CREATE INDEX ix_ab ON t (a, b)".into());
+        }
+        v
+    }
+    fn tag(&self) -> String {
+        format!("pk={} u={} s={} d={}", self.pk.tag(), self.ut.tag(), self.st.tag(), self.dt.tag())
+    }
+}
+
+#[derive(Clone, Debug)]
+enum Op {
+    Insert(Vec<Row>),
+    /// WHERE, tag of the column the WHERE addresses
+    Delete(E, usize),
+    Update(Vec<(usize, V)>, E, usize),
+    Begin,
+    Commit,
+    Rollback,
+    Truncate,
+    /// twin A only
+    CreateIdx,
+    DropIdx,
+}
+
+impl Op {
+    fn sql(&self) -> String {
+        match self {
+            Op::Insert(rows) => format!("INSERT INTO t VALUES {}", rows.iter().map(|r| format!("({})", r.iter().map(|v| v.sql()).collect::<Vec<_>>().join(", "))).collect::<Vec<_>>().join(", ")),
+            Op::Delete(e, _) => format!("DELETE FROM t WHERE {}", e.sql()),
+            Op::Update(sets, e, _) => format!("UPDATE t SET {} WHERE {}", sets.iter().map(|(c, v)| format!("{} = {}", COLS[*c], v.sql())).collect::<Vec<_>>().join(", "), e.sql()),
+            Op::Begin => "BEGIN".into(),
+            Op::Commit => "COMMIT".into(),
+            Op::Rollback => "ROLLBACK".into(),
+            Op::Truncate => "TRUNCATE TABLE t".into(),
+            Op::CreateIdx => "CREATE INDEX ix_d ON t (d)".into(),
+            Op::DropIdx => "DROP INDEX ix_d".into(),
+        }
+    }
+    fn kind(&self) -> &'static str {
+        match self {
+            Op::Insert(_) => "insert",
+            Op::Delete(..) => "delete",
+            Op::Update(..) => "update",
+            Op::Begin => "begin",
+            Op::Commit => "commit",
+            Op::Rollback => "rollback",
+            Op::Truncate => "truncate",
+            Op::CreateIdx => "create_index",
+            Op::DropIdx => "drop_index",
+        }
+    }
+}
+
+// ---------------------------------------------------------------------------------------------
+// model: rows + per-key provenance (to name the cause of a discrepancy)
+// ---------------------------------------------------------------------------------------------
+
+#[derive(Clone, Debug, Default)]
+struct Prov {
+    /// last event on this primary key: insert | reinsert | update | delete | truncate
+    last: &'static str,
+    /// the key was touched inside a transaction that was rolled back afterwards
+    rb: bool,
+}
+
+#[derive(Clone)]
+struct Snap {
+    rows: Vec<Row>,
+    prov: HashMap<String, Prov>,
+    fate: HashMap<String, &'static str>,
+}
+
+struct Model {
+    tables: BTreeMap<String, MTable>,
+    prov: HashMap<String, Prov>,
+    /// how a row version (identified by its unique `pay`) died: delete | truncate | rollback
+    fate: HashMap<String, &'static str>,
+    /// values that were present once (per column), candidates for "deleted value" probes
+    grave: Vec<Vec<V>>,
+    txn: Option<Snap>,
+    touched: HashSet<String>,
+    has_ix_d: bool,
+}
+
+fn k1(v: &V) -> String {
+    v.key(true)
+}
+
+impl Model {
+    fn new() -> Model {
+        let mut tables = BTreeMap::new();
+        tables.insert("t".to_string(), MTable { name: "t".into(), cols: COLS.iter().map(|s| s.to_string()).collect(), rows: vec![] });
+        Model { tables, prov: HashMap::new(), fate: HashMap::new(), grave: vec![vec![]; 7], txn: None, touched: HashSet::new(), has_ix_d: false }
+    }
+    fn rows(&self) -> &Vec<Row> {
+        &self.tables["t"].rows
+    }
+    fn rows_mut(&mut self) -> &mut Vec<Row> {
+        &mut self.tables.get_mut("t").unwrap().rows
+    }
+    fn bury(&mut self, r: &Row) {
+        for ci in [C_ID, C_U, C_S, C_D] {
+            if !r[ci].is_null() && self.grave[ci].len() < 4000 {
+                self.grave[ci].push(r[ci].clone());
+            }
+        }
+    }
+    fn touch(&mut self, idk: &str, what: &'static str) {
+        let p = self.prov.entry(idk.to_string()).or_default();
+        p.last = what;
+        p.rb = false;
+        if self.txn.is_some() {
+            self.touched.insert(idk.to_string());
+        }
+    }
+    /// indices of rows matched by the predicate (through the reference evaluator)
+    fn matching(&self, e: &E) -> Option<Vec<usize>> {
+        let q = Query::Select(Select { items: vec![Item::Expr { e: col("id"), alias: None }], from: vec![FromItem::Table { name: "t".into(), alias: None }], where_: Some(e.clone()), ..Default::default() });
+        let res = run_model(&q, &self.tables).ok()?;
+        let ids: HashSet<String> = res.rows.iter().map(|r| k1(&r[0])).collect();
+        Some(self.rows().iter().enumerate().filter(|(_, r)| ids.contains(&k1(&r[C_ID]))).map(|(i, _)| i).collect())
+    }
+    /// Apply the operation if it is valid in the current state; returns the concrete operation to
+    /// run on the twins and the number of rows it must affect. None = skipped (it would violate a
+    /// key, or it does not fit the transaction state) — this makes every sub-history replayable.
+    fn apply(&mut self, op: &Op) -> Option<(Op, Option<usize>)> {
+        match op {
+            Op::Insert(rows) => {
+                let mut ids: HashSet<String> = self.rows().iter().map(|r| k1(&r[C_ID])).collect();
+                let mut us: HashSet<String> = self.rows().iter().filter(|r| !r[C_U].is_null()).map(|r| k1(&r[C_U])).collect();
+                let mut ok = vec![];
+                for r in rows {
+                    if ids.contains(&k1(&r[C_ID])) || (!r[C_U].is_null() && us.contains(&k1(&r[C_U]))) {
+                        continue;
+                    }
+                    ids.insert(k1(&r[C_ID]));
+                    if !r[C_U].is_null() {
+                        us.insert(k1(&r[C_U]));
+                    }
+                    ok.push(r.clone());
+                }
+                if ok.is_empty() {
+                    return None;
+                }
+                for r in &ok {
+                    let idk = k1(&r[C_ID]);
+                    let what = if self.prov.contains_key(&idk) { "reinsert" } else { "insert" };
+                    self.touch(&idk, what);
+                    self.rows_mut().push(r.clone());
+                }
+                let n = ok.len();
+                Some((Op::Insert(ok), Some(n)))
+            }
+            Op::Delete(e, _) => {
+                let m = self.matching(e)?;
+                let set: HashSet<usize> = m.iter().copied().collect();
+                let old = std::mem::take(self.rows_mut());
+                let mut keep = Vec::with_capacity(old.len());
+                for (i, r) in old.into_iter().enumerate() {
+                    if set.contains(&i) {
+                        self.bury(&r);
+                        self.fate.insert(k1(&r[6]), "delete");
+                        self.touch(&k1(&r[C_ID]), "delete");
+                    } else {
+                        keep.push(r);
+                    }
+                }
+                *self.rows_mut() = keep;
+                Some((op.clone(), Some(m.len())))
+            }
+            Op::Update(sets, e, _) => {
+                let m = self.matching(e)?;
+                let touches_key = sets.iter().any(|(c, _)| *c == C_ID || *c == C_U);
+                if touches_key {
+                    if m.len() > 1 {
+                        return None;
+                    }
+                    for (c, v) in sets {
+                        if (*c == C_ID || *c == C_U) && !v.is_null() {
+                            let clash = self.rows().iter().enumerate().any(|(i, r)| !m.contains(&i) && k1(&r[*c]) == k1(v));
+                            if clash {
+                                return None;
+                            }
+                        }
+                    }
+                }
+                for &i in &m {
+                    let old = self.rows()[i].clone();
+                    self.bury(&old);
+                    self.touch(&k1(&old[C_ID]), "update");
+                    for (c, v) in sets {
+                        self.rows_mut()[i][*c] = v.clone();
+                    }
+                    if sets.iter().any(|(c, _)| *c == C_ID) {
+                        let nk = k1(&self.rows()[i][C_ID]);
+                        self.touch(&nk, "update");
+                    }
+                }
+                Some((op.clone(), Some(m.len())))
+            }
+            Op::Begin => {
+                if self.txn.is_some() {
+                    return None;
+                }
+                self.txn = Some(Snap { rows: self.rows().clone(), prov: self.prov.clone(), fate: self.fate.clone() });
+                self.touched.clear();
+                Some((Op::Begin, None))
+            }
+            Op::Commit => {
+                self.txn.take()?;
+                self.touched.clear();
+                Some((Op::Commit, None))
+            }
+            Op::Rollback => {
+                let s = self.txn.take()?;
+                let restored: HashSet<String> = s.rows.iter().map(|r| k1(&r[6])).collect();
+                let undone: Vec<String> = self.rows().iter().map(|r| k1(&r[6])).filter(|p| !restored.contains(p)).collect();
+                *self.rows_mut() = s.rows;
+                self.prov = s.prov;
+                self.fate = s.fate;
+                for p in undone {
+                    self.fate.insert(p, "rollback");
+                }
+                let touched: Vec<String> = self.touched.drain().collect();
+                for k in touched {
+                    self.prov.entry(k).or_default().rb = true;
+                }
+                Some((Op::Rollback, None))
+            }
+            Op::Truncate => {
+                if self.txn.is_some() {
+                    return None;
+                }
+                let old = std::mem::take(self.rows_mut());
+                for r in &old {
+                    self.bury(r);
+                    self.fate.insert(k1(&r[6]), "truncate");
+                    self.touch(&k1(&r[C_ID]), "truncate");
+                }
+                Some((Op::Truncate, None))
+            }
+            Op::CreateIdx => {
+                if self.txn.is_some() || self.has_ix_d {
+                    return None;
+                }
+                self.has_ix_d = true;
+                Some((Op::CreateIdx, None))
+            }
+            Op::DropIdx => {
+                if self.txn.is_some() || !self.has_ix_d {
+                    return None;
+                }
+                self.has_ix_d = false;
+                Some((Op::DropIdx, None))
+            }
+        }
+    }
+}
+
+// ---------------------------------------------------------------------------------------------
+// twins
+// ---------------------------------------------------------------------------------------------
+
+#[derive(Debug, Clone)]
+enum Out {
+    Dml(usize),
+    Rows(Vec<Row>),
+    Other,
+}
+
+fn exec(db: &Database, sql: &str) -> Result<Out, String> {
+    match catch(|| db.execute(sql)) {
+        Ok(Ok(r)) => Ok(match r {
+            ExecuteResult::Insert { rows_affected, .. } | ExecuteResult::Update { rows_affected, .. } | ExecuteResult::Delete { rows_affected, .. } => Out::Dml(rows_affected),
+            ExecuteResult::Select { rows, .. } => Out::Rows(conv_rows(&rows)),
+            _ => Out::Other,
+        }),
+        Ok(Err(e)) => Err(format!("{:#}", e)),
+        Err(p) => Err(format!("PANIC: {}", p)),
+    }
+}
+fn query(db: &Database, sql: &str) -> Result<Vec<Row>, String> {
+    match catch(|| db.query(sql)) {
+        Ok(Ok(rows)) => Ok(conv_rows(&rows)),
+        Ok(Err(e)) => Err(format!("{:#}", e)),
+        Err(p) => Err(format!("PANIC: {}", p)),
+    }
+}
+fn explain(db: &Database, sql: &str) -> Option<String> {
+    match catch(|| db.execute(&format!("EXPLAIN {}", sql))) {
+        Ok(Ok(ExecuteResult::Explain { plan })) => Some(plan),
+        _ => None,
+    }
+}
+fn err_class(e: &str) -> String {
+    if e.starts_with("PANIC: ") {
+        let site = crate::report::panic_site(e);
+        return format!("panic@{}", site.rsplit('/').next().unwrap_or(""));
+    }
+    e.split(|c: char| !c.is_ascii_alphabetic()).filter(|w| !w.is_empty()).take(6).collect::<Vec<_>>().join("_").to_lowercase()
+}
+
+struct Twins {
+    a: Database,
+    b: Database,
+    m: Model,
+    /// statements executed on twin A (twin B: the same minus index DDL)
+    log: Vec<String>,
+}
+
+enum Step {
+    Skipped,
+    Ok,
+    /// (assertion, cause, detail): the statement behaved differently on the twins
+    Diverged(&'static str, String, J),
+    /// the index-free twin disagrees with the model (not a C10 matter); history must be cut
+    ScanTwinOff(String),
+}
+
+impl Twins {
+    fn create(case: &Case, dir_a: &Path, dir_b: &Path) -> Result<Twins, String> {
+        let mk = |p: &Path| match catch(|| Database::create(p)) {
+            Ok(Ok(d)) => Ok(d),
+            Ok(Err(e)) => Err(format!("{:#}", e)),
+            Err(p) => Err(format!("PANIC: {}", p)),
+        };
+        let a = mk(dir_a)?;
+        let b = mk(dir_b)?;
+        let mut log = vec![];
+        for (db, indexed) in [(&a, true), (&b, false)] {
+            let _ = exec(db, "PRAGMA synchronous = OFF");
+            for s in case.ddl(indexed) {
+                exec(db, &s).map_err(|e| format!("{}: {}", s, e))?;
+                if indexed {
+                    log.push(s);
+                }
+            }
+        }
+        Ok(Twins { a, b, m: Model::new(), log })
+    }
+
+    fn step(&mut self, op: &Op) -> Step {
+        let (cop, want) = match self.m.apply(op) {
+            Some(x) => x,
+            None => return Step::Skipped,
+        };
+        let sql = cop.sql();
+        self.log.push(sql.clone());
+        let ra = exec(&self.a, &sql);
+        if matches!(cop, Op::CreateIdx | Op::DropIdx) {
+            return match ra {
+                Ok(_) => Step::Ok,
+                Err(e) => Step::Diverged("ddl", format!("error:{}", err_class(&e)), json!({"sql": sql, "error": e})),
+            };
+        }
+        let rb = exec(&self.b, &sql);
+        match (&ra, &rb) {
+            (Err(ea), Ok(_)) => Step::Diverged("dml", format!("error:{}", err_class(ea)), json!({"sql": short(&sql), "index_twin_error": ea})),
+            (_, Err(eb)) => Step::ScanTwinOff(format!("{}: {}", short(&sql), eb)),
+            (Ok(oa), Ok(ob)) => {
+                if let Some(w) = want {
+                    let (na, nb) = (dml_n(oa), dml_n(ob));
+                    if nb != Some(w) {
+                        return Step::ScanTwinOff(format!("{}: rows_affected {:?}, model {}", short(&sql), nb, w));
+                    }
+                    if na != nb {
+                        return Step::Diverged("dml", "rows_affected_differs".into(), json!({"sql": short(&sql), "index_twin": na, "scan_twin": nb, "model": w}));
+                    }
+                }
+                Step::Ok
+            }
+        }
+    }
+}
+
+fn dml_n(o: &Out) -> Option<usize> {
+    match o {
+        Out::Dml(n) => Some(*n),
+        _ => None,
+    }
+}
+fn short(s: &str) -> String {
+    if s.len() > 300 {
+        format!("{} ... [{} bytes]", &s[..300], s.len())
+    } else {
+        s.to_string()
+    }
+}
+
+// ---------------------------------------------------------------------------------------------
+// probes
+// ---------------------------------------------------------------------------------------------
+
+#[derive(Clone, Debug)]
+struct ProbeQ {
+    kind: &'static str,
+    /// sub-kind kept out of the signature (present/deleted/never, operator)
+    sub: &'static str,
+    /// pk | unique | secondary | composite | created (index built by CREATE INDEX mid-history) | none
+    ik: &'static str,
+    ty: KT,
+    col: usize,
+    q: Query,
+    /// the model covers the predicate
+    model: bool,
+    /// output column holding the ORDER BY key, desc
+    order: Option<(usize, bool)>,
+    limit: Option<u64>,
+    count: bool,
+}
+
+impl ProbeQ {
+    fn sql(&self) -> String {
+        self.q.sql()
+    }
+}
+
+fn sel(items: Vec<Item>, w: Option<E>) -> Select {
+    Select { items, from: vec![FromItem::Table { name: "t".into(), alias: None }], where_: w, ..Default::default() }
+}
+fn item(c: &str) -> Item {
+    Item::Expr { e: col(c), alias: None }
+}
+
+struct ProbeGen<'a> {
+    rng: &'a mut Rng,
+    out: Vec<ProbeQ>,
+}
+
+impl<'a> ProbeGen<'a> {
+    fn items(&mut self, ci: usize) -> Vec<Item> {
+        if self.rng.chance(1, 2) {
+            vec![Item::Star]
+        } else if ci == C_ID {
+            vec![item("id"), item("pay")]
+        } else {
+            vec![item("id"), item(COLS[ci]), item("pay")]
+        }
+    }
+    fn push_where(&mut self, kind: &'static str, sub: &'static str, ik: &'static str, ty: KT, ci: usize, w: E, model: bool) {
+        let items = self.items(ci);
+        self.out.push(ProbeQ { kind, sub, ik, ty, col: ci, q: Query::Select(sel(items, Some(w))), model, order: None, limit: None, count: false });
+    }
+}
+
+fn pick_present(rng: &mut Rng, m: &Model, ci: usize) -> Option<V> {
+    let rows = m.rows();
+    if rows.is_empty() {
+        return None;
+    }
+    for _ in 0..8 {
+        let r = &rows[rng.below(rows.len() as u64) as usize];
+        if !r[ci].is_null() {
+            return Some(r[ci].clone());
+        }
+    }
+    None
+}
+fn pick_deleted(rng: &mut Rng, m: &Model, ci: usize) -> Option<V> {
+    let g = &m.grave[ci];
+    if g.is_empty() {
+        return None;
+    }
+    let live: HashSet<String> = m.rows().iter().map(|r| k1(&r[ci])).collect();
+    for _ in 0..8 {
+        let v = &g[rng.below(g.len() as u64) as usize];
+        if !live.contains(&k1(v)) {
+            return Some(v.clone());
+        }
+    }
+    None
+}
+
+/// probe set for one indexed column
+fn probes_for_column(g: &mut ProbeGen, m: &Model, ci: usize, ik: &'static str, ty: KT, full: bool) {
+    let c = COLS[ci];
+    let mc = ty.model_compares();
+    let present = pick_present(g.rng, m, ci);
+    let deleted = pick_deleted(g.rng, m, ci);
+    let never = val(ty, 500_000 + g.rng.below(1000) as i64);
+    // point lookups
+    if let Some(v) = &present {
+        g.push_where("point_eq", "present", ik, ty, ci, bin(BinOp::Eq, col(c), lit(v.clone())), mc);
+        if full || g.rng.chance(1, 3) {
+            g.push_where("point_eq", "literal_left", ik, ty, ci, bin(BinOp::Eq, lit(v.clone()), col(c)), mc);
+        }
+        if full || g.rng.chance(1, 2) {
+            let w = bin(BinOp::And, bin(BinOp::Eq, col(c), lit(v.clone())), bin(BinOp::Ge, col("a"), lit(V::Int(1))));
+            g.push_where("point_eq_and", "present", ik, ty, ci, w, mc);
+        }
+        if full || g.rng.chance(1, 2) {
+            let q = Query::Select(sel(vec![Item::Expr { e: E::Agg(AggFn::CountStar, None), alias: None }], Some(bin(BinOp::Eq, col(c), lit(v.clone())))));
+            g.out.push(ProbeQ { kind: "count_eq", sub: "present", ik, ty, col: ci, q, model: mc, order: None, limit: None, count: true });
+        }
+        // literal of the other numeric class
+        if ty.is_int() {
+            if let V::Int(i) = v {
+                if i.abs() < (1 << 50) {
+                    g.push_where("int_col_eq_float_literal", "present", ik, ty, ci, bin(BinOp::Eq, col(c), lit(V::Float(*i as f64))), true);
+                }
+            }
+        }
+        if ty == KT::Double {
+            if let V::Float(f) = v {
+                if f.fract() == 0.0 {
+                    g.push_where("float_col_eq_int_literal", "present", ik, ty, ci, bin(BinOp::Eq, col(c), lit(V::Int(*f as i64))), true);
+                }
+            }
+        }
+    }
+    if let Some(v) = &deleted {
+        g.push_where("point_eq", "deleted", ik, ty, ci, bin(BinOp::Eq, col(c), lit(v.clone())), mc);
+        if full || g.rng.chance(1, 2) {
+            let q = Query::Select(sel(vec![Item::Expr { e: E::Agg(AggFn::CountStar, None), alias: None }], Some(bin(BinOp::Eq, col(c), lit(v.clone())))));
+            g.out.push(ProbeQ { kind: "count_eq", sub: "deleted", ik, ty, col: ci, q, model: mc, order: None, limit: None, count: true });
+        }
+    }
+    if full || g.rng.chance(1, 2) {
+        g.push_where("point_eq", "never", ik, ty, ci, bin(BinOp::Eq, col(c), lit(never.clone())), mc);
+    }
+    // NULL tests
+    if full || g.rng.chance(1, 2) {
+        let neg = g.rng.chance(1, 3);
+        g.push_where("is_null", if neg { "is_not_null" } else { "is_null" }, ik, ty, ci, E::IsNull(Box::new(col(c)), neg), true);
+    }
+    // ranges, BETWEEN, IN, LIKE (not for BOOLEAN: ordering of truth values is not documented)
+    if ty != KT::Bool {
+        let v1 = present.clone().or(deleted.clone()).unwrap_or(never.clone());
+        let v2 = pick_present(g.rng, m, ci).unwrap_or(never.clone());
+        for (op, sub) in [(BinOp::Lt, "lt"), (BinOp::Le, "le"), (BinOp::Gt, "gt"), (BinOp::Ge, "ge")] {
+            if full || g.rng.chance(1, 3) {
+                g.push_where("range", sub, ik, ty, ci, bin(op, col(c), lit(v1.clone())), mc);
+            }
+        }
+        if full || g.rng.chance(1, 2) {
+            let (lo, hi) = if v1.order_cmp(&v2) == std::cmp::Ordering::Greater { (v2.clone(), v1.clone()) } else { (v1.clone(), v2.clone()) };
+            g.push_where("between", "between", ik, ty, ci, E::Between(Box::new(col(c)), Box::new(lit(lo)), Box::new(lit(hi)), false), mc);
+        }
+        if full || g.rng.chance(1, 2) {
+            let mut l = vec![lit(v1.clone()), lit(v2.clone()), lit(never.clone())];
+            if let Some(d) = &deleted {
+                l.push(lit(d.clone()));
+            }
+            g.push_where("in_list", "in", ik, ty, ci, E::InList(Box::new(col(c)), l, false), mc);
+        }
+        if ty == KT::Text {
+            if let V::Text(s) = &v1 {
+                let cut = g.rng.usize(3, s.len() - 1);
+                let pat = format!("{}%", &s[..cut]);
+                g.push_where("like_prefix", "like", ik, ty, ci, E::Like(Box::new(col(c)), Box::new(lit(V::Text(pat))), false), true);
+            }
+        }
+    }
+    // ORDER BY the indexed column. `SELECT * .. ORDER BY` is a separate probe kind: the plain sort
+    // path does not sort star projections at all (a defect outside C10), so it gets its own signatures.
+    for (desc, lim) in [(false, false), (true, false), (false, true), (true, true)] {
+        if !(full || g.rng.chance(1, 2)) {
+            continue;
+        }
+        let star = g.rng.chance(1, 4);
+        let (items, keycol) = if star {
+            (vec![Item::Star], ci)
+        } else if ci == C_ID {
+            (vec![item("id"), item("pay")], 0)
+        } else {
+            (vec![item("id"), item(c), item("pay")], 1)
+        };
+        let mut s = sel(items, None);
+        s.order_by = vec![OrderKey::Expr(col(c), desc)];
+        let limit = if lim { Some(*g.rng.pick(&[1u64, 3, 10, 57])) } else { None };
+        s.limit = limit;
+        let kind = match (star, lim) {
+            (false, false) => "order_by",
+            (false, true) => "order_by_limit",
+            (true, false) => "star_order_by",
+            (true, true) => "star_order_by_limit",
+        };
+        g.out.push(ProbeQ { kind, sub: if desc { "desc" } else { "asc" }, ik, ty, col: ci, q: Query::Select(s), model: true, order: Some((keycol, desc)), limit, count: false });
+    }
+}
+
+fn probes_composite(g: &mut ProbeGen, m: &Model, full: bool) {
+    let ik = "composite";
+    let x = pick_present(g.rng, m, C_A).unwrap_or(V::Int(1));
+    let y = pick_present(g.rng, m, C_B).unwrap_or(V::Int(2));
+    let a_eq = bin(BinOp::Eq, col("a"), lit(x.clone()));
+    g.push_where("composite_prefix_eq", "a=x", ik, KT::Int, C_A, a_eq.clone(), true);
+    g.push_where("composite_prefix_eq_range", "a=x AND b>y", ik, KT::Int, C_A, bin(BinOp::And, a_eq.clone(), bin(BinOp::Gt, col("b"), lit(y.clone()))), true);
+    g.push_where("composite_full_eq", "a=x AND b=y", ik, KT::Int, C_A, bin(BinOp::And, a_eq.clone(), bin(BinOp::Eq, col("b"), lit(y.clone()))), true);
+    if full || g.rng.chance(1, 2) {
+        g.push_where("composite_full_eq", "b=y AND a=x", ik, KT::Int, C_A, bin(BinOp::And, bin(BinOp::Eq, col("b"), lit(y.clone())), a_eq.clone()), true);
+        g.push_where("composite_second_only", "b=y", ik, KT::Int, C_B, bin(BinOp::Eq, col("b"), lit(y.clone())), true);
+        g.push_where("composite_prefix_eq_null", "a=x AND b IS NULL", ik, KT::Int, C_A, bin(BinOp::And, a_eq.clone(), E::IsNull(Box::new(col("b")), false)), true);
+        g.push_where("int_col_eq_float_literal", "a=x.0", ik, KT::Int, C_A, bin(BinOp::Eq, col("a"), lit(V::Float(x.as_f64().unwrap_or(1.0)))), true);
+    }
+    if full || g.rng.chance(1, 2) {
+        let desc = g.rng.chance(1, 2);
+        let mut s = sel(vec![item("id"), item("a"), item("pay")], None);
+        s.order_by = vec![OrderKey::Expr(col("a"), desc)];
+        let lim = g.rng.chance(1, 2);
+        s.limit = if lim { Some(7) } else { None };
+        let kind = if lim { "order_by_limit" } else { "order_by" };
+        g.out.push(ProbeQ { kind, sub: if desc { "desc" } else { "asc" }, ik, ty: KT::Int, col: C_A, q: Query::Select(s.clone()), model: true, order: Some((1, desc)), limit: s.limit, count: false });
+    }
+}
+
+fn gen_probes(rng: &mut Rng, case: &Case, m: &Model, full: bool) -> Vec<ProbeQ> {
+    let mut g = ProbeGen { rng, out: vec![] };
+    probes_for_column(&mut g, m, C_ID, "pk", case.pk, full);
+    probes_for_column(&mut g, m, C_U, "unique", case.ut, full);
+    probes_for_column(&mut g, m, C_S, "secondary", case.st, full);
+    probes_for_column(&mut g, m, C_D, if m.has_ix_d { "created" } else { "none" }, case.dt, full);
+    probes_composite(&mut g, m, full);
+    g.out
+}
+
+// ---------------------------------------------------------------------------------------------
+// judging one probe
+// ---------------------------------------------------------------------------------------------
+
+#[derive(Clone, Debug)]
+struct Mis {
+    assertion: &'static str,
+    cause: String,
+    detail: J,
+    /// primary keys of the offending rows (the shrinker first tries the history restricted to them)
+    ids: Vec<String>,
+}
+
+#[derive(Default)]
+struct Judged {
+    mis: Vec<Mis>,
+    both_err: Option<String>,
+    scan_err: Option<String>,
+    scan_unsorted: bool,
+    both_unsorted: bool,
+    /// index-free twin differs from the model (assertion, detail)
+    model_off: Option<(String, J)>,
+    /// rows the index-free twin returned
+    b_rows: usize,
+}
+
+fn bag(rows: &[Row]) -> HashMap<String, i64> {
+    let mut m = HashMap::new();
+    for r in rows {
+        *m.entry(row_key(r, true)).or_insert(0) += 1;
+    }
+    m
+}
+/// rows of `x` not covered by `y` (bag difference), at most 3
+fn minus(x: &[Row], y: &[Row]) -> Vec<Row> {
+    let mut by = bag(y);
+    let mut out = vec![];
+    for r in x {
+        let k = row_key(r, true);
+        match by.get_mut(&k) {
+            Some(c) if *c > 0 => *c -= 1,
+            _ => {
+                if out.len() < 3 {
+                    out.push(r.clone());
+                }
+            }
+        }
+    }
+    out
+}
+
+fn unsorted_at(rows: &[Row], kc: usize, desc: bool) -> Option<usize> {
+    let mut prev: Option<&V> = None;
+    for (i, r) in rows.iter().enumerate() {
+        let v = match r.get(kc) {
+            Some(v) if !v.is_null() => v,
+            _ => continue,
+        };
+        if let Some(p) = prev {
+            let o = p.order_cmp(v);
+            let o = if desc { o.reverse() } else { o };
+            if o == std::cmp::Ordering::Greater {
+                return Some(i);
+            }
+        }
+        prev = Some(v);
+    }
+    None
+}
+
+fn classify_extra(e: &Row, m: &Model) -> String {
+    let idk = e.first().map(k1).unwrap_or_default();
+    let p = m.prov.get(&idk).cloned().unwrap_or_default();
+    // the row version is identified by its `pay` (last column of every probe's select list)
+    if e.len() >= 3 {
+        let payk = k1(&e[e.len() - 1]);
+        if let Some(f) = m.fate.get(&payk) {
+            return format!("stale_after_{}", f);
+        }
+        if let Some(live) = m.rows().iter().find(|r| k1(&r[6]) == payk) {
+            let same = if e.len() == COLS.len() { row_key(e, true) == row_key(live, true) } else { k1(&e[0]) == k1(&live[C_ID]) };
+            if p.rb {
+                return "stale_after_rollback".into();
+            }
+            if !same || p.last == "update" {
+                return "stale_after_update".into();
+            }
+            return "extra_rows".into();
+        }
+        return "extra_rows_never_written".into();
+    }
+    if p.rb {
+        return "stale_after_rollback".into();
+    }
+    let live = m.rows().iter().any(|r| k1(&r[C_ID]) == idk);
+    if live {
+        return if p.last == "update" { "stale_after_update".into() } else { "extra_rows".into() };
+    }
+    match p.last {
+        "delete" => "stale_after_delete".into(),
+        "truncate" => "stale_after_truncate".into(),
+        "update" => "stale_after_update".into(),
+        _ => "extra_rows".into(),
+    }
+}
+fn classify_missing(r: &Row, keycol: Option<usize>, m: &Model) -> String {
+    let idk = r.first().map(k1).unwrap_or_default();
+    let p = m.prov.get(&idk).cloned().unwrap_or_default();
+    if p.rb {
+        return "stale_after_rollback".into();
+    }
+    match p.last {
+        "update" => return "stale_after_update".into(),
+        "reinsert" => return "missing_rows_reinserted_key".into(),
+        _ => {}
+    }
+    if let Some(kc) = keycol {
+        if r.get(kc).map(|v| v.is_null()).unwrap_or(false) {
+            return "missing_rows_null_key".into();
+        }
+    }
+    "missing_rows".into()
+}
+
+/// Compare the index twin's answer `ra` with the reference answer `rb` (index-free twin, or the
+/// same twin before the index DDL).
+fn judge(p: &ProbeQ, ra: &Result<Vec<Row>, String>, rb: &Result<Vec<Row>, String>, m: &Model, use_model: bool) -> Judged {
+    let mut j = Judged::default();
+    let mres = if p.model && use_model { run_model(&p.q, &m.tables).ok() } else { None };
+    if let (Some(mr), Ok(b)) = (&mres, rb) {
+        if p.order.is_none() {
+            if let Some(f) = crate::sqlm::cmp::compare(b, mr).into_iter().next() {
+                j.model_off = Some((f.assertion.to_string(), f.detail));
+            }
+        } else if p.limit.is_none() {
+            // ORDER BY: NULL placement and the plain sort itself belong to C15; only the bag is ours
+            if let Some(d) = crate::sqlm::cmp::bag_diff(b, &mr.rows) {
+                j.model_off = Some(("bag".to_string(), d));
+            }
+        }
+    }
+    let (a, b) = match (ra, rb) {
+        (Err(e), Err(_)) => {
+            j.both_err = Some(e.clone());
+            return j;
+        }
+        (Ok(_), Err(e)) => {
+            j.scan_err = Some(e.clone());
+            return j;
+        }
+        (Err(e), Ok(_)) => {
+            j.mis.push(Mis { assertion: "no_error", cause: format!("error:{}", err_class(e)), detail: json!({"index_twin_error": e}), ids: vec![] });
+            return j;
+        }
+        (Ok(a), Ok(b)) => (a, b),
+    };
+    j.b_rows = b.len();
+    let a_matches_model = mres
+        .as_ref()
+        .map(|mr| if p.order.is_some() && p.limit.is_none() { crate::sqlm::cmp::bag_diff(a, &mr.rows).is_none() } else { crate::sqlm::cmp::compare(a, mr).is_empty() })
+        .unwrap_or(false);
+    let detail = |a: &[Row], b: &[Row], extra: &[Row], missing: &[Row]| json!({"index_twin_rows": a.len(), "scan_twin_rows": b.len(), "extra_on_index_twin": rows_json(extra, 3), "missing_on_index_twin": rows_json(missing, 3), "index_twin_equals_model": a_matches_model});
+    if p.count {
+        let na = a.first().and_then(|r| r.first()).and_then(|v| v.as_f64()).unwrap_or(-1.0);
+        let nb = b.first().and_then(|r| r.first()).and_then(|v| v.as_f64()).unwrap_or(-1.0);
+        if na != nb {
+            let cause = if a_matches_model { "scan_twin_wrong" } else if na < nb { "missing_rows" } else { "extra_rows" };
+            j.mis.push(Mis { assertion: "twin_count", cause: cause.into(), detail: json!({"index_twin": na, "scan_twin": nb}), ids: vec![] });
+        }
+        return j;
+    }
+    if let Some((kc, desc)) = p.order {
+        let b_unsorted = unsorted_at(b, kc, desc).is_some();
+        if b_unsorted {
+            j.scan_unsorted = true;
+        }
+        if let Some(i) = unsorted_at(a, kc, desc) {
+            if !b_unsorted {
+                j.mis.push(Mis { assertion: "sorted", cause: "unsorted".into(), detail: json!({"at": i, "prev": a[i - 1].get(kc).map(|v| v.to_json()), "next": a[i].get(kc).map(|v| v.to_json()), "rows": a.len()}), ids: vec![k1(&a[i - 1][0]), k1(&a[i][0])] });
+            } else {
+                j.both_unsorted = true;
+            }
+        }
+    }
+    if p.limit.is_none() {
+        let extra = minus(a, b);
+        let missing = minus(b, a);
+        if !extra.is_empty() || !missing.is_empty() {
+            let cause = if a_matches_model {
+                "scan_twin_wrong".to_string()
+            } else if p.kind.ends_with("_literal") && extra.is_empty() {
+                // the literal's numeric class alone decides (history-independent)
+                "missing_rows".to_string()
+            } else if let Some(e) = extra.first() {
+                if b.iter().any(|r| row_key(r, true) == row_key(e, true)) {
+                    "duplicate_rows".to_string()
+                } else {
+                    classify_extra(e, m)
+                }
+            } else {
+                classify_missing(&missing[0], p.order.map(|o| o.0), m)
+            };
+            let ids = extra.iter().chain(missing.iter()).map(|r| k1(&r[0])).collect();
+            j.mis.push(Mis { assertion: "twin_bag", cause, detail: detail(a, b, &extra, &missing), ids });
+        }
+        return j;
+    }
+    // LIMIT window: the key multiset is determined, the choice among ties is not
+    let kc = p.order.map(|o| o.0).unwrap_or(0);
+    let keys = |rows: &[Row]| -> Vec<Row> { rows.iter().map(|r| vec![r.get(kc).cloned().unwrap_or(V::Null)]).collect() };
+    let (ka, kb) = (keys(a), keys(b));
+    let extra_k = minus(&ka, &kb);
+    let missing_k = minus(&kb, &ka);
+    if !extra_k.is_empty() || !missing_k.is_empty() {
+        let nulls = |k: &[Row]| k.iter().filter(|r| r[0].is_null()).count();
+        let cause = if nulls(&ka) != nulls(&kb) {
+            "null_placement".to_string()
+        } else if a_matches_model {
+            "scan_twin_wrong".to_string()
+        } else if let Some(e) = a.iter().find(|r| extra_k.iter().any(|k| k1(&k[0]) == k1(&r[kc]))) {
+            classify_extra(e, m)
+        } else if let Some(r) = b.iter().find(|r| missing_k.iter().any(|k| k1(&k[0]) == k1(&r[kc]))) {
+            classify_missing(r, Some(kc), m)
+        } else {
+            "missing_rows".to_string()
+        };
+        let mut ids: Vec<String> = a.iter().filter(|r| extra_k.iter().any(|k| k1(&k[0]) == k1(&r[kc]))).take(3).map(|r| k1(&r[0])).collect();
+        ids.extend(b.iter().filter(|r| missing_k.iter().any(|k| k1(&k[0]) == k1(&r[kc]))).take(3).map(|r| k1(&r[0])));
+        j.mis.push(Mis { assertion: "twin_window_keys", cause, detail: json!({"index_twin_rows": a.len(), "scan_twin_rows": b.len(), "keys_only_on_index_twin": rows_json(&extra_k, 3), "keys_only_on_scan_twin": rows_json(&missing_k, 3)}), ids });
+        return j;
+    }
+    // every returned row must be a live row
+    if use_model {
+        let star = a.first().map(|r| r.len() == COLS.len()).unwrap_or(false);
+        let pool: Vec<Row> = m.rows().iter().map(|r| if star { r.clone() } else if p.col == C_ID { vec![r[C_ID].clone(), r[6].clone()] } else { vec![r[C_ID].clone(), r[p.col].clone(), r[6].clone()] }).collect();
+        let ghosts = minus(a, &pool);
+        if let Some(e) = ghosts.first() {
+            j.mis.push(Mis { assertion: "twin_window_rows", cause: classify_extra(e, m), detail: json!({"rows_not_in_table": rows_json(&ghosts, 3)}), ids: ghosts.iter().map(|r| k1(&r[0])).collect() });
+        }
+    }
+    j
+}
+
+fn star_variant(p: &ProbeQ) -> Option<ProbeQ> {
+    if let Query::Select(s) = &p.q {
+        let mut s2 = s.clone();
+        s2.items = vec![Item::Star];
+        let mut p2 = p.clone();
+        p2.q = Query::Select(s2);
+        p2.count = false;
+        return Some(p2);
+    }
+    None
+}
+
+fn run_probe(tw: &Twins, p: &ProbeQ) -> Judged {
+    let sql = p.sql();
+    let ra = query(&tw.a, &sql);
+    let rb = query(&tw.b, &sql);
+    let mut j = judge(p, &ra, &rb, &tw.m, true);
+    if p.count && !j.mis.is_empty() {
+        // name the cause from the rows behind the count
+        if let Some(p2) = star_variant(p) {
+            let s2 = p2.sql();
+            let j2 = judge(&p2, &query(&tw.a, &s2), &query(&tw.b, &s2), &tw.m, true);
+            if let Some(m2) = j2.mis.first() {
+                j.mis[0].cause = m2.cause.clone();
+                j.mis[0].ids = m2.ids.clone();
+            }
+        }
+    }
+    j
+}
+
+fn sig_of(p: &ProbeQ, ik: &str, mis: &Mis) -> String {
+    format!("C10/{}/{}/{}/{}", p.kind, ik, p.ty.tag(), mis.cause)
+}
+
+/// index named in the EXPLAIN output, if the plan goes through one
+fn plan_index(plan: &str) -> Option<String> {
+    for line in plan.lines() {
+        if let Some(pos) = line.find("IndexScan on ") {
+            let rest = &line[pos..];
+            if let Some(u) = rest.find(" using ") {
+                let name: String = rest[u + 7..].chars().take_while(|c| c.is_alphanumeric() || *c == '_').collect();
+                return Some(name);
+            }
+            return Some("(index)".into());
+        }
+    }
+    None
+}
+
+// ---------------------------------------------------------------------------------------------
+// history generator
+// ---------------------------------------------------------------------------------------------
+
+#[derive(Clone, Debug, Default)]
+struct Feats {
+    deletes: bool,
+    bulk_delete: bool,
+    updates: bool,
+    key_updates: bool,
+    rollback: bool,
+    commit_txn: bool,
+    truncate: bool,
+    nulls: bool,
+    reinsert: bool,
+    ddl: bool,
+}
+
+impl Feats {
+    fn tags(&self) -> Vec<&'static str> {
+        let mut v = vec![];
+        for (on, t) in [(self.deletes, "deletes"), (self.bulk_delete, "bulk_delete"), (self.updates, "updates"), (self.key_updates, "key_updates"), (self.rollback, "rollback"), (self.commit_txn, "commit_txn"), (self.truncate, "truncate"), (self.nulls, "nulls"), (self.reinsert, "reinsert"), (self.ddl, "index_ddl")] {
+            if on {
+                v.push(t);
+            }
+        }
+        v
+    }
+}
+
+struct Gen {
+    id_pool: Vec<i64>,
+    u_pool: Vec<i64>,
+    serial: u64,
+    s_dom: i64,
+    d_dom: i64,
+    truncated: bool,
+}
+
+fn gen_row(rng: &mut Rng, case: &Case, f: &Feats, g: &mut Gen, id: Option<V>) -> Option<Row> {
+    let id = match id {
+        Some(v) => v,
+        None => val(case.pk, g.id_pool.pop()?),
+    };
+    let null = |rng: &mut Rng, pm: u64| f.nulls && rng.below(1000) < pm;
+    let u = if null(rng, 150) { V::Null } else { val(case.ut, g.u_pool.pop()?) };
+    let s = if null(rng, 150) { V::Null } else { val(case.st, rng.below(g.s_dom as u64) as i64) };
+    let a = if null(rng, 100) { V::Null } else { V::Int(rng.below(5) as i64) };
+    let b = if null(rng, 100) { V::Null } else { V::Int(rng.below(9) as i64) };
+    let d = if null(rng, 150) { V::Null } else { val(case.dt, rng.below(g.d_dom as u64) as i64) };
+    g.serial += 1;
+    Some(vec![id, u, s, a, b, d, V::Text(format!("p{}", g.serial))])
+}
+
+fn id_pred(v: &V) -> E {
+    bin(BinOp::Eq, col("id"), lit(v.clone()))
+}
+
+fn gen_op(rng: &mut Rng, case: &Case, f: &Feats, g: &mut Gen, m: &Model) -> Op {
+    let in_txn = m.txn.is_some();
+    if in_txn && rng.chance(1, 4) {
+        return if f.rollback && (!f.commit_txn || rng.chance(2, 3)) { Op::Rollback } else { Op::Commit };
+    }
+    let nlive = m.rows().len();
+    for _ in 0..20 {
+        let r = rng.below(100);
+        if r < 22 {
+            let n = rng.usize(1, 40);
+            let mut rows = vec![];
+            for _ in 0..n {
+                let reuse = if f.reinsert && rng.chance(1, 3) { pick_deleted(rng, m, C_ID) } else { None };
+                if let Some(row) = gen_row(rng, case, f, g, reuse) {
+                    rows.push(row);
+                }
+            }
+            if !rows.is_empty() {
+                return Op::Insert(rows);
+            }
+        } else if r < 40 && f.deletes && nlive > 0 {
+            let k = rng.below(10);
+            if k < 4 {
+                if let Some(v) = pick_present(rng, m, C_ID) {
+                    return Op::Delete(id_pred(&v), C_ID);
+                }
+            } else if k < 7 && f.bulk_delete {
+                // a contiguous key range of up to a third of the table: empties whole leaves
+                let mut ids: Vec<V> = m.rows().iter().map(|r| r[C_ID].clone()).collect();
+                ids.sort_by(|x, y| x.order_cmp(y));
+                let i = rng.below(ids.len() as u64) as usize;
+                let span = rng.usize(1, (ids.len() / 3).max(1));
+                let jx = (i + span).min(ids.len() - 1);
+                return Op::Delete(E::Between(Box::new(col("id")), Box::new(lit(ids[i].clone())), Box::new(lit(ids[jx].clone())), false), C_ID);
+            } else if k < 9 && case.st.model_compares() {
+                if let Some(v) = pick_present(rng, m, C_S) {
+                    return Op::Delete(bin(BinOp::Eq, col("s"), lit(v)), C_S);
+                }
+            } else if case.ut.model_compares() {
+                if let Some(v) = pick_present(rng, m, C_U) {
+                    return Op::Delete(bin(BinOp::Eq, col("u"), lit(v)), C_U);
+                }
+            }
+        } else if r < 62 && f.updates && nlive > 0 {
+            let k = rng.below(12);
+            let idv = match pick_present(rng, m, C_ID) {
+                Some(v) => v,
+                None => continue,
+            };
+            let new_s = val(case.st, rng.below(g.s_dom as u64 + 3) as i64);
+            if k < 3 {
+                return Op::Update(vec![(C_S, new_s)], id_pred(&idv), C_ID);
+            } else if k < 4 && f.nulls {
+                return Op::Update(vec![(C_S, V::Null)], id_pred(&idv), C_ID);
+            } else if k < 5 && f.nulls {
+                return Op::Update(vec![(C_S, new_s)], E::IsNull(Box::new(col("s")), false), C_S);
+            } else if k < 6 {
+                let mut ids: Vec<V> = m.rows().iter().map(|r| r[C_ID].clone()).collect();
+                ids.sort_by(|x, y| x.order_cmp(y));
+                let i = rng.below(ids.len() as u64) as usize;
+                let jx = (i + rng.usize(1, 30)).min(ids.len() - 1);
+                return Op::Update(vec![(C_S, new_s)], E::Between(Box::new(col("id")), Box::new(lit(ids[i].clone())), Box::new(lit(ids[jx].clone())), false), C_ID);
+            } else if k < 7 && case.st.model_compares() {
+                if let Some(v) = pick_present(rng, m, C_S) {
+                    return Op::Update(vec![(C_S, new_s)], bin(BinOp::Eq, col("s"), lit(v)), C_S);
+                }
+            } else if k < 8 {
+                return Op::Update(vec![(C_A, V::Int(rng.below(5) as i64)), (C_B, V::Int(rng.below(9) as i64))], id_pred(&idv), C_ID);
+            } else if k < 9 {
+                return Op::Update(vec![(C_A, V::Int(rng.below(5) as i64))], bin(BinOp::Eq, col("b"), lit(V::Int(rng.below(9) as i64))), C_B);
+            } else if k < 10 {
+                return Op::Update(vec![(C_D, val(case.dt, rng.below(g.d_dom as u64 + 3) as i64))], id_pred(&idv), C_ID);
+            } else if f.key_updates {
+                if k < 11 {
+                    let nu = if f.nulls && rng.chance(1, 4) { V::Null } else { g.u_pool.pop().map(|n| val(case.ut, n)).unwrap_or(V::Null) };
+                    return Op::Update(vec![(C_U, nu)], id_pred(&idv), C_ID);
+                } else if let Some(n) = g.id_pool.pop() {
+                    return Op::Update(vec![(C_ID, val(case.pk, n))], id_pred(&idv), C_ID);
+                }
+            }
+        } else if r < 70 && (f.rollback || f.commit_txn) && !in_txn {
+            return Op::Begin;
+        } else if r < 73 && f.truncate && !in_txn && !g.truncated && nlive > 0 {
+            g.truncated = true;
+            return Op::Truncate;
+        } else if r < 82 && f.ddl && !in_txn {
+            return if m.has_ix_d { Op::DropIdx } else { Op::CreateIdx };
+        }
+    }
+    let mut rows = vec![];
+    for _ in 0..5 {
+        if let Some(row) = gen_row(rng, case, f, g, None) {
+            rows.push(row);
+        }
+    }
+    Op::Insert(rows)
+}
+
+// ---------------------------------------------------------------------------------------------
+// replay and shrinking
+// ---------------------------------------------------------------------------------------------
+
+#[derive(Clone)]
+enum Target {
+    /// the probe, run after the history, fails with this signature
+    Probe(ProbeQ, String),
+    /// the last operation of the history diverges with this signature
+    LastOp(String),
+    /// the last operation is index DDL on twin A; the probe answers differently before and after
+    Ddl(ProbeQ, String),
+    /// full-scan content of the twins differs
+    Base(String),
+}
+
+fn op_sig(case: &Case, op: &Op, cause: &str) -> String {
+    let (ci, kind) = match op {
+        Op::Delete(_, c) => (Some(*c), "dml_delete"),
+        Op::Update(_, _, c) => (Some(*c), "dml_update"),
+        Op::Insert(_) => (None, "dml_insert"),
+        Op::CreateIdx => (Some(C_D), "ddl_create_index"),
+        Op::DropIdx => (Some(C_D), "ddl_drop_index"),
+        _ => (None, "txn_or_truncate"),
+    };
+    let (ik, ty) = match ci {
+        Some(C_ID) => ("pk", case.pk.tag()),
+        Some(C_U) => ("unique", case.ut.tag()),
+        Some(C_S) => ("secondary", case.st.tag()),
+        Some(C_B) => ("composite", "int"),
+        Some(C_D) => ("created", case.dt.tag()),
+        _ => ("all", "any"),
+    };
+    format!("C10/{}/{}/{}/{}", kind, ik, ty, cause)
+}
+
+fn base_check(tw: &Twins) -> Result<Option<(String, J)>, String> {
+    let sql = "SELECT * FROM t";
+    let ra = query(&tw.a, sql);
+    let rb = query(&tw.b, sql);
+    let b = match &rb {
+        Ok(b) => b,
+        Err(e) => return Err(format!("scan twin full scan failed: {}", e)),
+    };
+    if !minus(b, tw.m.rows()).is_empty() || !minus(tw.m.rows(), b).is_empty() {
+        return Err(format!("scan twin content differs from the model ({} vs {} rows)", b.len(), tw.m.rows().len()));
+    }
+    match &ra {
+        Err(e) => Ok(Some((format!("C10/base_state/all/any/error:{}", err_class(e)), json!({"error": e})))),
+        Ok(a) => {
+            let extra = minus(a, b);
+            let missing = minus(b, a);
+            if extra.is_empty() && missing.is_empty() {
+                return Ok(None);
+            }
+            let cause = if let Some(e) = extra.first() { classify_extra(e, &tw.m) } else { classify_missing(&missing[0], None, &tw.m) };
+            Ok(Some((format!("C10/base_state/all/any/{}", cause), json!({"index_twin_rows": a.len(), "scan_twin_rows": b.len(), "extra_on_index_twin": rows_json(&extra, 3), "missing_on_index_twin": rows_json(&missing, 3)}))))
+        }
+    }
+}
+
+fn ddl_judge(tw: &mut Twins, op: &Op, probes: &[ProbeQ]) -> (Step, Vec<(ProbeQ, Mis)>) {
+    let before: Vec<Result<Vec<Row>, String>> = probes.iter().map(|p| query(&tw.a, &p.sql())).collect();
+    let st = tw.step(op);
+    let mut out = vec![];
+    if matches!(st, Step::Ok) {
+        for (p, bf) in probes.iter().zip(before.iter()) {
+            let af = query(&tw.a, &p.sql());
+            // the side that has the index is judged against the side that has not
+            let j = if matches!(op, Op::DropIdx) { judge(p, bf, &af, &tw.m, false) } else { judge(p, &af, bf, &tw.m, false) };
+            for mis in j.mis {
+                out.push((p.clone(), mis));
+            }
+        }
+    }
+    (st, out)
+}
+
+struct Replayer<'a> {
+    scratch: &'a Scratch,
+    runs: usize,
+}
+
+impl<'a> Replayer<'a> {
+    fn fails(&mut self, case: &Case, ops: &[Op], target: &Target) -> bool {
+        self.runs += 1;
+        let da = self.scratch.dir("rA");
+        let db = self.scratch.dir("rB");
+        let res = (|| {
+            let mut tw = match Twins::create(case, &da, &db) {
+                Ok(t) => t,
+                Err(_) => return false,
+            };
+            let (body, last) = match target {
+                Target::LastOp(_) | Target::Ddl(..) => match ops.split_last() {
+                    Some((l, b)) => (b, Some(l)),
+                    None => return false,
+                },
+                _ => (ops, None),
+            };
+            for op in body {
+                match tw.step(op) {
+                    Step::Diverged(..) | Step::ScanTwinOff(_) => return false,
+                    _ => {}
+                }
+            }
+            match target {
+                Target::Probe(p, sig) => run_probe(&tw, p).mis.iter().any(|m| &sig_of(p, p.ik, m) == sig),
+                Target::LastOp(sig) => match tw.step(last.unwrap()) {
+                    Step::Diverged(_, cause, _) => &op_sig(case, last.unwrap(), &cause) == sig,
+                    _ => false,
+                },
+                Target::Ddl(p, sig) => {
+                    let (_, v) = ddl_judge(&mut tw, last.unwrap(), std::slice::from_ref(p));
+                    v.iter().any(|(p, m)| &sig_of(p, p.ik, m) == sig)
+                }
+                Target::Base(sig) => matches!(base_check(&tw), Ok(Some((s, _))) if &s == sig),
+            }
+        })();
+        let _ = std::fs::remove_dir_all(&da);
+        let _ = std::fs::remove_dir_all(&db);
+        res
+    }
+}
+
+/// ddmin over the history (the last `fixed` operations stay), then over the rows of the
+/// remaining INSERTs, then over the indexes twin A declares.
+fn shrink(rp: &mut Replayer, case: &Case, ops: &[Op], target: &Target, focus: &[String], max_runs: usize, deadline: Instant) -> Option<(Case, Vec<Op>)> {
+    let fixed = if matches!(target, Target::LastOp(_) | Target::Ddl(..)) { 1 } else { 0 };
+    let mut case = case.clone();
+    let mut cur: Vec<Op> = ops.to_vec();
+    // 0. most defects need only the offending rows: try the history restricted to their keys
+    //    (progressively fewer keys), which makes every later replay cheap
+    let mut reproduced = false;
+    if !focus.is_empty() {
+        for take in [1usize, 2, focus.len()] {
+            if take > focus.len() {
+                continue;
+            }
+            let keep: HashSet<&String> = focus.iter().take(take).collect();
+            let mut cand: Vec<Op> = vec![];
+            for (k, op) in cur.iter().enumerate() {
+                match op {
+                    Op::Insert(rows) if k + fixed < cur.len() || fixed == 0 => {
+                        let r: Vec<Row> = rows.iter().filter(|r| keep.contains(&k1(&r[C_ID]))).cloned().collect();
+                        if !r.is_empty() {
+                            cand.push(Op::Insert(r));
+                        }
+                    }
+                    other => cand.push(other.clone()),
+                }
+            }
+            if rp.fails(&case, &cand, target) {
+                cur = cand;
+                reproduced = true;
+                break;
+            }
+            if take == focus.len() {
+                break;
+            }
+        }
+    }
+    // only shrink what reproduces on fresh twins
+    if !reproduced && !rp.fails(&case, &cur, target) {
+        return None;
+    }
+    let start_runs = rp.runs;
+    let out_of_budget = |rp: &Replayer| rp.runs - start_runs >= max_runs || Instant::now() >= deadline;
+    // 1. operations
+    let mut n = 2usize;
+    while cur.len() - fixed >= 1 && !out_of_budget(rp) {
+        let body = cur.len() - fixed;
+        let chunk = (body + n - 1) / n;
+        let mut reduced = false;
+        let mut i = 0;
+        while i * chunk < body {
+            if out_of_budget(rp) {
+                break;
+            }
+            let (lo, hi) = (i * chunk, ((i + 1) * chunk).min(body));
+            let cand: Vec<Op> = cur.iter().enumerate().filter(|(k, _)| *k < lo || *k >= hi).map(|(_, o)| o.clone()).collect();
+            if rp.fails(&case, &cand, target) {
+                cur = cand;
+                n = (n - 1).max(2);
+                reduced = true;
+                break;
+            }
+            i += 1;
+        }
+        if !reduced {
+            if chunk <= 1 {
+                break;
+            }
+            n = (n * 2).min(body);
+        }
+    }
+    // 2. rows of multi-row inserts
+    let mut progress = true;
+    while progress && !out_of_budget(rp) {
+        progress = false;
+        for k in 0..cur.len() {
+            if let Op::Insert(rows) = &cur[k] {
+                if rows.len() < 2 {
+                    continue;
+                }
+                let half = rows.len() / 2;
+                for part in [rows[..half].to_vec(), rows[half..].to_vec()] {
+                    if out_of_budget(rp) {
+                        break;
+                    }
+                    let mut cand = cur.clone();
+                    cand[k] = Op::Insert(part);
+                    if rp.fails(&case, &cand, target) {
+                        cur = cand;
+                        progress = true;
+                        break;
+                    }
+                }
+            }
+        }
+    }
+    // 3. indexes the repro does not need
+    for which in 0..4 {
+        if out_of_budget(rp) {
+            break;
+        }
+        let mut c2 = case.clone();
+        let flag = match which {
+            0 => &mut c2.with_ix_ab,
+            1 => &mut c2.with_ix_s,
+            2 => &mut c2.with_unique,
+            _ => &mut c2.with_pk,
+        };
+        if !*flag {
+            continue;
+        }
+        *flag = false;
+        if rp.fails(&c2, &cur, target) {
+            case = c2;
+        }
+    }
+    Some((case, cur))
+}
+
+fn repro_sql(case: &Case, ops: &[Op], target: &Target) -> Vec<String> {
+    let mut v = case.ddl(true);
+    let mut m = Model::new();
+    for op in ops {
+        if let Some((c, _)) = m.apply(op) {
+            v.push(short(&c.sql()));
+        }
+    }
+    match target {
+        Target::Probe(p, _) => v.push(p.sql()),
+        Target::Ddl(p, _) => {
+            let last = v.pop().unwrap_or_default();
+            v.push(p.sql());
+            v.push(last);
+            v.push(p.sql());
+        }
+        Target::Base(_) => v.push("SELECT * FROM t".into()),
+        Target::LastOp(_) => {}
+    }
+    v
+}
+
+// ---------------------------------------------------------------------------------------------
+// driver
+// ---------------------------------------------------------------------------------------------
+
+struct SigInfo {
+    hits: u64,
+    assertion: String,
+    repro: Option<Vec<String>>,
+    repro_ops: usize,
+    first_case: String,
+    detail: J,
+}
+
+struct Run<'a> {
+    ctx: Ctx,
+    scratch: &'a Scratch,
+    sigs: BTreeMap<String, SigInfo>,
+    via_index: BTreeMap<String, u64>,
+    via_scan: BTreeMap<String, u64>,
+    shrink_spent: f64,
+    shrink_budget: f64,
+    shrink_runs: usize,
+    quick: bool,
+    err_examples: BTreeMap<String, (u64, String, String)>,
+    families: HashSet<String>,
+}
+
+impl<'a> Run<'a> {
+    /// record a discrepancy; the first occurrence of a signature is shrunk to a minimal history
+    fn report(&mut self, case: &Case, case_tag: &str, ops: &[Op], target: Target, focus: &[String], assertion: &str, sig: &str, detail: J, hist_sigs: &mut HashSet<String>) {
+        if !hist_sigs.insert(sig.to_string()) {
+            return;
+        }
+        let family = {
+            let p: Vec<&str> = sig.split('/').collect();
+            let kind = p.get(1).copied().unwrap_or("");
+            let class = if kind.starts_with("star_order") { "star_order" } else if kind.starts_with("order") { "order" } else { kind };
+            format!("{}/{}/{}", class, p.get(2).copied().unwrap_or(""), p.get(4).copied().unwrap_or(""))
+        };
+        let first = self.families.insert(family);
+        let mut repro = None;
+        let mut repro_ops = ops.len();
+        if first && self.shrink_spent < self.shrink_budget {
+            let t0 = Instant::now();
+            let per: f64 = if self.quick { 3.0 } else { 9.0 };
+            let deadline = t0 + std::time::Duration::from_secs_f64(per.min(self.shrink_budget - self.shrink_spent).max(0.5));
+            let mut rp = Replayer { scratch: self.scratch, runs: 0 };
+            match shrink(&mut rp, case, ops, &target, focus, if self.quick { 80 } else { 300 }, deadline) {
+                Some((c2, small)) => {
+                    repro_ops = small.len();
+                    repro = Some(repro_sql(&c2, &small, &target));
+                }
+                None => self.ctx.count("not_reproduced_on_fresh_twins", 1),
+            }
+            self.shrink_runs += rp.runs;
+            self.shrink_spent += t0.elapsed().as_secs_f64();
+        }
+        let e = self.sigs.entry(sig.to_string()).or_insert(SigInfo { hits: 0, assertion: assertion.to_string(), repro: None, repro_ops, first_case: case_tag.to_string(), detail: detail.clone() });
+        e.hits += 1;
+        if e.repro.is_none() && repro.is_some() {
+            e.repro = repro.clone();
+            e.repro_ops = repro_ops;
+        }
+        let full = json!({"case": case_tag, "detail": detail, "minimal_history": repro, "history_len": ops.len(), "probe": match &target { Target::Probe(p, _) | Target::Ddl(p, _) => json!({"sql": p.sql(), "kind": p.kind, "sub": p.sub}), _ => J::Null }});
+        self.ctx.violation(assertion, sig, full);
+    }
+
+    fn probe_round(&mut self, case: &Case, case_tag: &str, case_no: u64, tw: &Twins, rng: &mut Rng, plans: &mut HashMap<String, Option<String>>, hist_sigs: &mut HashSet<String>, round: u64, hist: &[Op]) -> bool {
+        // full-scan content first: a probe can only be attributed when the base tables agree
+        match base_check(tw) {
+            Err(why) => {
+                self.ctx.count("histories_cut_scan_twin_differs_from_model", 1);
+                if self.ctx.samples.len() < 6 {
+                    self.ctx.sample(json!({"history_cut": why, "case": case_tag, "last_statements": tw.log.iter().rev().take(4).map(|s| short(s)).collect::<Vec<_>>()}));
+                }
+                return false;
+            }
+            Ok(Some((sig, detail))) => {
+                self.report(case, case_tag, hist, Target::Base(sig.clone()), &[], "base_state", &sig, detail, hist_sigs);
+                return false;
+            }
+            Ok(None) => {}
+        }
+        let probes = gen_probes(rng, case, &tw.m, false);
+        for p in probes {
+            self.ctx.eval();
+            let sql = p.sql();
+            let pkey = format!("{}|{}|{}|{}", p.kind, p.sub, p.col, tw.m.has_ix_d);
+            let plan_ix = plans.entry(pkey).or_insert_with(|| explain(&tw.a, &sql).and_then(|pl| plan_index(&pl))).clone();
+            let label = format!("{}/{}/{}", p.kind, p.ik, p.ty.tag());
+            let j = run_probe(tw, &p);
+            if let Some(ix) = &plan_ix {
+                *self.via_index.entry(label.clone()).or_insert(0) += 1;
+                self.ctx.count(&format!("probes_via_index:{}", ix_class(ix)), 1);
+                self.ctx.nontrivial(fnv(format!("{}#{}#{}#{}", case_no, round, sql, tw.m.rows().len()).as_bytes()));
+                if j.b_rows > 0 {
+                    self.ctx.count("probes_via_index_nonempty", 1);
+                }
+            } else {
+                *self.via_scan.entry(label.clone()).or_insert(0) += 1;
+                self.ctx.count("probes_table_scan_plan", 1);
+            }
+            if let Some(e) = &j.both_err {
+                self.ctx.count("probe_error_on_both_twins", 1);
+                let x = self.err_examples.entry(format!("both:{}:{}", p.kind, err_class(e))).or_insert((0, sql.clone(), e.clone()));
+                x.0 += 1;
+            }
+            if let Some(e) = &j.scan_err {
+                self.ctx.count("probe_error_on_scan_twin_only", 1);
+                let x = self.err_examples.entry(format!("scan_twin_only:{}:{}", p.kind, err_class(e))).or_insert((0, sql.clone(), e.clone()));
+                x.0 += 1;
+            }
+            if j.both_unsorted {
+                self.ctx.count("both_twins_unsorted_not_judged", 1);
+            }
+            if j.scan_unsorted {
+                self.ctx.count("scan_twin_unsorted_not_judged", 1);
+            }
+            if !p.model {
+                self.ctx.count("probes_twin_only_model_does_not_cover", 1);
+                if j.b_rows == 0 {
+                    self.ctx.count("probes_twin_only_empty_on_both", 1);
+                }
+            }
+            if let Some((assertion, d)) = &j.model_off {
+                // the index-free twin itself disagrees with the model: not an index matter, but the
+                // brief asks for model agreement; reported under its own assertion
+                let sig = format!("C10/model/{}/{}/scan_twin_differs_from_model:{}", p.kind, p.ty.tag(), assertion);
+                if hist_sigs.insert(sig.clone()) {
+                    let e = self.sigs.entry(sig.clone()).or_insert(SigInfo { hits: 0, assertion: "model".into(), repro: None, repro_ops: 0, first_case: case_tag.to_string(), detail: json!({"sql": sql, "fail": d}) });
+                    e.hits += 1;
+                    self.ctx.violation("model", &sig, json!({"case": case_tag, "sql": sql, "fail": d, "history": tw.log.iter().map(|s| short(s)).collect::<Vec<_>>()}));
+                }
+            }
+            for mis in &j.mis {
+                let sig = sig_of(&p, p.ik, mis);
+                let detail = json!({"sql": sql, "sub": p.sub, "plan_index": plan_ix, "fail": mis.detail});
+                self.report(case, case_tag, hist, Target::Probe(p.clone(), sig.clone()), &mis.ids, mis.assertion, &sig, detail, hist_sigs);
+            }
+            if j.mis.is_empty() && self.ctx.samples.len() < 3 && plan_ix.is_some() && j.b_rows > 0 {
+                self.ctx.sample(json!({"case": case_tag, "probe": sql, "plan_index": plan_ix, "rows": j.b_rows, "table_rows": tw.m.rows().len(), "statements_so_far": tw.log.len()}));
+            }
+        }
+        true
+    }
+}
+
+fn ix_class(ix: &str) -> &'static str {
+    if ix.ends_with("_pkey") {
+        "pk"
+    } else if ix.ends_with("_key") {
+        "unique"
+    } else if ix == "ix_ab" {
+        "composite"
+    } else if ix == "ix_d" {
+        "created"
+    } else {
+        "secondary"
+    }
+}
+
+pub fn run(a: &Args) -> i32 {
+    let ctx = Ctx::new(
+        "C10",
+        &a.tier,
+        a.seed,
+        "exploration",
+        "twin databases fed the same generated history (200-2000 rows, non-monotonic keys with shared 4-byte prefixes, range deletes emptying leaves, updates of indexed columns incl. to NULL and back, BEGIN..ROLLBACK/COMMIT, TRUNCATE, re-insert of deleted keys; features stratified per history): twin A with PRIMARY KEY + UNIQUE + secondary + composite (a,b) indexes, twin B without any; key types INT/BIGINT/TEXT/DOUBLE/BOOLEAN/DATE/TIMESTAMP. After every few statements: full-scan contents equal, then a probe set (point =, <,<=,>,>=, BETWEEN, IN, LIKE 'p%', IS [NOT] NULL, ORDER BY [DESC] [LIMIT], COUNT(*), composite prefixes, int-vs-float literals) must give equal bags / equal key windows on both twins and on the model; CREATE INDEX / DROP INDEX on twin A must not change any probe answer (before/after). EXPLAIN on twin A says which probes went through an index. evaluations = probes executed; distinct_nontrivial = distinct (history, state, probe) whose plan on twin A is an index scan",
+    );
+    if cfg!(miri) {
+        let mut ctx = ctx;
+        ctx.inconclusive("C10 needs file-backed databases (mmap); not runnable under Miri");
+        return ctx.finish();
+    }
+    let quick = ctx.quick();
+    let scratch = Scratch::new("c10");
+    let mut run = Run { ctx, scratch: &scratch, sigs: BTreeMap::new(), via_index: BTreeMap::new(), via_scan: BTreeMap::new(), shrink_spent: 0.0, shrink_budget: if quick { 15.0 } else { 200.0 }, shrink_runs: 0, quick, err_examples: BTreeMap::new(), families: HashSet::new() };
+    let mut rng = Rng::derive(a.seed, 10);
+    let explore_budget = if quick { 31.0 } else { 330.0 };
+    let hard_budget = if quick { 52.0 } else { 560.0 };
+    let mut case_no = 0u64;
+    let mut explore_spent = 0.0f64;
+    let mut feature_hist: BTreeMap<String, u64> = BTreeMap::new();
+    while explore_spent < explore_budget && run.ctx.elapsed() < hard_budget {
+        case_no += 1;
+        let t_case = Instant::now();
+        let shrink_before = run.shrink_spent;
+        let case = Case {
+            pk: *rng.pick(&[KT::BigInt, KT::BigInt, KT::Int, KT::Text]),
+            ut: *rng.pick(&[KT::Int, KT::BigInt, KT::Text, KT::Double, KT::Date, KT::Ts]),
+            st: *rng.pick(&[KT::Int, KT::BigInt, KT::Text, KT::Text, KT::Double, KT::Bool, KT::Date, KT::Ts]),
+            dt: *rng.pick(&[KT::Int, KT::BigInt, KT::Text, KT::Double, KT::Bool, KT::Date, KT::Ts]),
+            with_pk: true,
+            with_unique: true,
+            with_ix_s: true,
+            with_ix_ab: true,
+        };
+        // stratified features: a fifth of the histories are insert-only, the rest draw a few features
+        let mut f = Feats::default();
+        if !rng.chance(1, 5) {
+            f.deletes = rng.chance(1, 2);
+            f.bulk_delete = f.deletes && rng.chance(2, 3);
+            f.updates = rng.chance(2, 5);
+            f.key_updates = f.updates && rng.chance(1, 3);
+            f.rollback = rng.chance(1, 4);
+            f.commit_txn = rng.chance(1, 4);
+            f.truncate = rng.chance(1, 8);
+            f.nulls = rng.chance(1, 2);
+            f.reinsert = f.deletes && rng.chance(1, 2);
+            f.ddl = rng.chance(1, 3);
+        }
+        for t in f.tags() {
+            *feature_hist.entry(t.to_string()).or_insert(0) += 1;
+        }
+        let nrows = if quick { rng.usize(200, 600) } else { rng.usize(200, 2000) };
+        let mut ids: Vec<i64> = (0..(nrows as i64 * 3)).collect();
+        rng.shuffle(&mut ids);
+        let mut us: Vec<i64> = (0..(nrows as i64 * 4)).collect();
+        rng.shuffle(&mut us);
+        let mut g = Gen { id_pool: ids, u_pool: us, serial: 0, s_dom: (nrows as i64 / 6).max(4), d_dom: (nrows as i64 / 10).max(4), truncated: false };
+        let case_tag = format!("#{} {} rows~{} features={}", case_no, case.tag(), nrows, f.tags().join("+"));
+        let mut tw = match Twins::create(&case, &scratch.dir("A"), &scratch.dir("B")) {
+            Ok(t) => t,
+            Err(e) => {
+                run.ctx.violation("setup", &format!("C10/setup/all/any/error:{}", err_class(&e)), json!({"case": case_tag, "error": e}));
+                continue;
+            }
+        };
+        let mut hist: Vec<Op> = vec![];
+        let mut hist_sigs: HashSet<String> = HashSet::new();
+        let mut plans: HashMap<String, Option<String>> = HashMap::new();
+        let mut round = 0u64;
+        let mut alive = true;
+        // one step of the history; false = stop this history
+        let do_op = |run: &mut Run, tw: &mut Twins, hist: &mut Vec<Op>, hist_sigs: &mut HashSet<String>, rng: &mut Rng, op: Op| -> bool {
+            let is_ddl = matches!(op, Op::CreateIdx | Op::DropIdx);
+            let mut ddl_mis = vec![];
+            let st = if is_ddl {
+                let mut pg = ProbeGen { rng, out: vec![] };
+                probes_for_column(&mut pg, &tw.m, C_D, if matches!(op, Op::CreateIdx) { "created" } else { "dropped" }, case.dt, true);
+                let probes = pg.out;
+                run.ctx.evals(probes.len() as u64);
+                run.ctx.count("ddl_before_after_probes", probes.len() as u64);
+                let (st, v) = ddl_judge(tw, &op, &probes);
+                ddl_mis = v;
+                st
+            } else {
+                tw.step(&op)
+            };
+            match st {
+                Step::Skipped => true,
+                Step::Ok => {
+                    hist.push(op.clone());
+                    run.ctx.count(&format!("ops:{}", op.kind()), 1);
+                    for (p, mis) in ddl_mis {
+                        let sig = sig_of(&p, p.ik, &mis);
+                        let detail = json!({"sql": p.sql(), "ddl": op.sql(), "fail": mis.detail});
+                        run.report(&case, &case_tag, hist, Target::Ddl(p.clone(), sig.clone()), &mis.ids, "ddl_before_after", &sig, detail, hist_sigs);
+                    }
+                    true
+                }
+                Step::Diverged(assertion, cause, detail) => {
+                    hist.push(op.clone());
+                    let sig = op_sig(&case, &op, &cause);
+                    run.report(&case, &case_tag, hist, Target::LastOp(sig.clone()), &[], assertion, &sig, detail, hist_sigs);
+                    false
+                }
+                Step::ScanTwinOff(why) => {
+                    run.ctx.count("histories_cut_scan_twin_differs_from_model", 1);
+                    if run.ctx.samples.len() < 6 {
+                        run.ctx.sample(json!({"history_cut": why, "case": case_tag}));
+                    }
+                    false
+                }
+            }
+        };
+        // load in non-monotonic key order
+        let mut loaded = 0usize;
+        while loaded < nrows && alive {
+            let n = rng.usize(20, 120).min(nrows - loaded);
+            let rows: Vec<Row> = (0..n).filter_map(|_| gen_row(&mut rng, &case, &f, &mut g, None)).collect();
+            loaded += n;
+            alive = do_op(&mut run, &mut tw, &mut hist, &mut hist_sigs, &mut rng, Op::Insert(rows));
+        }
+        if alive {
+            round += 1;
+            alive = run.probe_round(&case, &case_tag, case_no, &tw, &mut rng, &mut plans, &mut hist_sigs, round, &hist);
+        }
+        let nops = if quick { rng.usize(8, 20) } else { rng.usize(10, 36) };
+        let mut since = 0;
+        let mut next_probe = rng.usize(2, 5);
+        for _ in 0..nops {
+            if !alive || run.ctx.elapsed() > hard_budget {
+                break;
+            }
+            let op = gen_op(&mut rng, &case, &f, &mut g, &tw.m);
+            alive = do_op(&mut run, &mut tw, &mut hist, &mut hist_sigs, &mut rng, op);
+            since += 1;
+            if alive && since >= next_probe {
+                since = 0;
+                next_probe = rng.usize(2, 5);
+                round += 1;
+                alive = run.probe_round(&case, &case_tag, case_no, &tw, &mut rng, &mut plans, &mut hist_sigs, round, &hist);
+            }
+        }
+        if alive && tw.m.txn.is_some() {
+            let end = if f.rollback { Op::Rollback } else { Op::Commit };
+            alive = do_op(&mut run, &mut tw, &mut hist, &mut hist_sigs, &mut rng, end);
+        }
+        if alive {
+            round += 1;
+            run.probe_round(&case, &case_tag, case_no, &tw, &mut rng, &mut plans, &mut hist_sigs, round, &hist);
+        }
+        run.ctx.count("histories", 1);
+        if hist_sigs.is_empty() {
+            run.ctx.count("histories_without_discrepancy", 1);
+        }
+        drop(tw);
+        let _ = std::fs::remove_dir_all(scratch.root.join("A"));
+        let _ = std::fs::remove_dir_all(scratch.root.join("B"));
+        explore_spent += t_case.elapsed().as_secs_f64() - (run.shrink_spent - shrink_before);
+    }
+    let Run { mut ctx, sigs, via_index, via_scan, shrink_runs, shrink_spent, err_examples, .. } = run;
+    ctx.extra.insert("probe_errors_not_judged".into(), json!(err_examples.iter().map(|(k, v)| (k.clone(), json!({"count": v.0, "sql": v.1, "error": v.2}))).collect::<BTreeMap<_, _>>()));
+    let mut sj = serde_json::Map::new();
+    for (s, i) in &sigs {
+        sj.insert(s.clone(), json!({"hits": i.hits, "assertion": i.assertion, "first_case": i.first_case, "minimal_history": i.repro, "minimal_history_ops": i.repro_ops, "first_detail": i.detail}));
+    }
+    ctx.extra.insert("signatures".into(), J::Object(sj));
+    ctx.extra.insert("probes_with_index_plan".into(), json!(via_index));
+    ctx.extra.insert("probes_with_table_scan_plan".into(), json!(via_scan));
+    ctx.extra.insert("history_features".into(), json!(feature_hist));
+    ctx.count("shrink_replays", shrink_runs as u64);
+    ctx.count("shrink_seconds", shrink_spent as u64);
+    ctx.assumptions.push("twin B (no PRIMARY KEY / UNIQUE / indexes) is the reference for twin A; the harness tracks keys so the history never violates a constraint; DATE/TIMESTAMP comparisons against string literals are judged twin-against-twin only (outside the documented dialect); ORDER BY judges sortedness over non-NULL keys only, NULL placement only through LIMIT windows; a history is cut (counted, not judged) once the index-free twin itself departs from the model".into());
+    ctx.finish()
 }
